@@ -335,6 +335,12 @@ class Check:
         os.makedirs(EVIDENCE, exist_ok=True)
         with open(os.path.join(EVIDENCE, self.pid + ".json"), "w") as f:
             json.dump(doc, f, indent=1, sort_keys=True)
+        if self.violations:
+            byk = {}
+            for v in self.violations:
+                k = "%s | %s" % (v["clause"], v["key"])
+                byk[k] = byk.get(k, 0) + 1
+            print("violations by (clause | key): " + json.dumps(byk))
         print("%s tier=%s seed=%d evaluations=%d distinct=%d states=%d "
               "traces=%d violations=%d known=%d wall=%.1fs" % (
                   self.pid, self.tier, self.seed, self.evaluations,
